@@ -36,6 +36,11 @@ type cs struct {
 	A2    string `json:"a2,omitempty"`
 	B2    string `json:"b2,omitempty"`
 	Order []int  `json:"order,omitempty"`
+	// Values (mode two): the messages and session states are handed on as the Go values the round functions returned
+	// (an in-process user of the package), not as their encodings; each value is encoded once when it is returned and
+	// again when it is consumed and the two encodings must be equal (seed C18-9: a returned payload that still points
+	// into storage a later round reuses)
+	Values bool `json:"values,omitempty"`
 }
 
 func curveByName(n string) elliptic.Curve {
@@ -264,6 +269,7 @@ func runTwo(ctx *runner.Ctx, k cs) {
 		step   int
 		kept   map[string][]byte
 		copies map[string][]byte
+		vals   map[string]interface{}
 	}
 	ss := []*sess{
 		{a: input32(k.A), b: input32(k.B), seed: k.Seed, kept: map[string][]byte{}, copies: map[string][]byte{}},
@@ -280,9 +286,25 @@ func runTwo(ctx *runner.Ctx, k cs) {
 		}
 		s.kept[name] = enc
 		s.copies[name] = append([]byte(nil), enc...)
+		if s.vals == nil {
+			s.vals = map[string]interface{}{}
+		}
+		s.vals[name] = v
 		return true
 	}
 	load := func(s *sess, name string) (interface{}, bool) {
+		if k.Values {
+			enc, err := encode(curve, name, s.vals[name])
+			if err != nil {
+				fail("encode-later."+name, err.Error())
+				return nil, false
+			}
+			if !bytes.Equal(enc, s.copies[name]) {
+				fail("value-changed-later."+name, fmt.Sprintf("the %s value returned to a session encodes differently when it is consumed: a later call changed it", name))
+				return nil, false
+			}
+			return s.vals[name], true
+		}
 		v, err := decode(curve, name, s.kept[name])
 		if err != nil {
 			fail("decode."+name, fmt.Sprintf("the kept %s bytes of a session no longer decode: %v", name, err))
@@ -366,7 +388,7 @@ func runTwo(ctx *runner.Ctx, k cs) {
 			}
 		}
 	}
-	ctx.Nontrivial(fmt.Sprintf("two/%s/%v", k.Curve, k.Order))
+	ctx.Nontrivial(fmt.Sprintf("two/%s/%v/%v", k.Curve, k.Order, k.Values))
 	ctx.Outcome("two-sessions-ok/" + k.Curve)
 }
 
@@ -730,6 +752,7 @@ func work(ctx *runner.Ctx) {
 				continue
 			}
 			cases = append(cases, cs{Mode: "two", Curve: cv, A: A[4], B: A[2], A2: A[3], B2: A[1], Seed: seed, Order: o})
+			cases = append(cases, cs{Mode: "two", Curve: cv, A: A[4], B: A[2], A2: A[3], B2: A[1], Seed: seed, Order: o, Values: true})
 		}
 	}
 	// mutations of every encoded object
@@ -855,7 +878,7 @@ func main() {
 	runner.Main(runner.Spec{
 		ID:    "C18",
 		Level: "fault_enumeration",
-		Rule: "correctness: P-256 x (a,b) over {0, ff.., 55.., aa.., text, single-bit values} (a stride of the pairs) and the other curves on boundary pairs: EvaluatorRound4 == SHA-256(a xor b); crash points: for EVERY subset of {msg1, garbler state, msg2, evaluator state, msg3} passed through Encode->Decode (2^5 restarts) the digest is unchanged; identity: Decode(Encode(x)) == x, documented sizes, re-encoding reproduces the bytes; faults: for each of the five encodings every truncation (all for small objects, ends + stride for large), one appended byte, single-bit flips (every bit of R1, GS and of the headers; strided bytes of R2, ES; R3: header, key, first/last 64 table labels, strided table labels, garbler inputs, hints, ciphertexts), length-field replacements and non-minimal varints; foreign session ids and curves (decoders, round functions and encoders); randomness sources with short reads; two sessions in one process under every interleaving (70) of their 4+4 round steps with all messages and states kept as bytes (no returned encoding may change later). Oracle: no panic; rejected, or accepted with the documented size and canonical bytes and then the protocol ends with an error or the correct digest. " +
+		Rule: "correctness: P-256 x (a,b) over {0, ff.., 55.., aa.., text, single-bit values} (a stride of the pairs) and the other curves on boundary pairs: EvaluatorRound4 == SHA-256(a xor b); crash points: for EVERY subset of {msg1, garbler state, msg2, evaluator state, msg3} passed through Encode->Decode (2^5 restarts) the digest is unchanged; identity: Decode(Encode(x)) == x, documented sizes, re-encoding reproduces the bytes; faults: for each of the five encodings every truncation (all for small objects, ends + stride for large), one appended byte, single-bit flips (every bit of R1, GS and of the headers; strided bytes of R2, ES; R3: header, key, first/last 64 table labels, strided table labels, garbler inputs, hints, ciphertexts), length-field replacements and non-minimal varints; foreign session ids and curves (decoders, round functions and encoders); randomness sources with short reads; two sessions in one process under every interleaving (70) of their 4+4 round steps with all messages and states kept as bytes (no returned encoding may change later) and, second, handed on as the returned Go values (a value must encode the same when it is consumed as when it was returned). Oracle: no panic; rejected, or accepted with the documented size and canonical bytes and then the protocol ends with an error or the correct digest. " +
 			"distinct_nontrivial = distinct cases that reached the oracle",
 		Assumptions: []string{
 			"documented sizes: 2-byte magic, 8-byte session id, 1-byte-prefixed curve name, fixed-width field elements (the table of TestPayloadSizesByCurve, extended by the same formula to P-384/P-521)",
